@@ -30,7 +30,12 @@ PROP = dict(
               "+-0.001) x 9 framings: one call / frames 1,2,3,5,7,11,64,1000 cyclic / frames of fs samples over ceil(3.5 fs) (fs <= 100) "
               "or 2.5 fs samples; the cyclic frame patterns [2fs+3,1,fs-1,3fs+1,5], [fs+1], [3fs], [1,4fs+2,7] (frames longer than fs "
               "and than 2 fs followed by further frames) over 9 fs + 17 samples; BIG: 140000 samples in frames of 1000 and in one call "
-              "(sample index crossing 65536, up to 17500 counter wraps); every sample compared",
+              "(sample index crossing 65536, up to 17500 counter wraps); every sample compared; EXACT ZEROS in the data: Tuner on 8 "
+              "input letters (zero-stuffed by 2 and by 3, leading silence of 1 / 7 / fs+3 zeros, burst / silence / burst, one zero "
+              "sample in the middle, a sine sampled on its zero crossings) x every (fs, f) x 4 framings, absolute sample index in the "
+              "oracle, zero input must give |r| <= 1e-9; HilbertFilter (31,0.05), (101,0.01), (400,0.01) x the 8 letters x 4 framings "
+              "incl. all-zero frames (real part delayed bit-exact, imaginary part against impz() convolved with the input in long "
+              "double); Delay D {1,5,64,1000} x real/complex x 7 letters x 4 framings",
         thorough="hilbert(x): every n in 3..4096 x 7 letters (all negative bins), every n in 4097..8192: real part 7 letters, all negative "
                  "bins 3 letters (alternating, off-bin tone, LCG) - i.e. every prime up to 8192; impulses: every position for n <= 512, "
                  "positions 1 and n-1 for every n <= 4096, additionally 0 and n/2 for every prime n; BIG: n in {4097, 8191, 8192, 16384, "
@@ -42,7 +47,9 @@ PROP = dict(
                  "rates 8..100000 (8..20, 25, 31..33, 63..65, 100, 101, 127, 128, 255..257, 999..1001, 4095, 4096, 8000, 11025, 22050, "
                  "32000, 44100, 48000, 65535, 65536, 65537, 88200, 96000, 100000; odd fs with f = +-fs/2 included) x up to 47 values of "
                  "f (the quick set and +-fs/5, +-fs/7, +-0.1, +-(fs/2-0.001), +-(fs/2-1/3), +-2/3, +-7.75, +-(fs/6+0.25), +-1000.0625) x "
-                 "9 framings, every sample of ceil(5.5 fs) (framings 0-2) / 9 fs + 17 (3-6) / 140000 (7, 8)"),
+                 "9 framings, every sample of ceil(5.5 fs) (framings 0-2) / 9 fs + 17 (3-6) / 140000 (7, 8); exact-zero letters as quick for "
+                 "the 33 sample rates <= 1001 and {8000, 65536, 100000} x up to 47 f; HilbertFilter zero letters for flen "
+                 "{31,32,51,101,200,201,401} x tw {0.01,0.05}"),
     deadline=dict(quick=150, thorough=3000),
     assumptions=COMMON_ASSUME + [
         "tolerances: real(hilbert(x)) - x and hilbert(x,n') - hilbert(pad(x)) are measured as max element error against tol(n)*||x||_2, "
@@ -53,6 +60,9 @@ PROP = dict(
         "for n > 8192 (cases marked BIG) the O(n^2) long-double DFT is evaluated on a subset of the negative bins only (both ends of "
         "the range, mirror images of the tone bins, 256/1024 evenly spread): less than the statement demands, never more",
         "Delay<T>(D) (include/dsplib/delay.h, the mechanism behind HilbertFilter's real part) is read as out[k] = x[k-D], zeros before",
+        "zero-input cases: HilbertFilter's imaginary part is compared with impz() convolved with the input (header: 'out = delay(in, M/2) "
+        "+ j * fir(in)') within 1e-12 * sum|h| * max|x| absolute - a linearity reading that the tone-only statement implies but does not spell out; "
+        "for an exactly zero Tuner input sample the output must be (numerically) zero",
         "HilbertFilter: M is the actual impz() length (even requests are rounded up by the library), group delay D = M/2 (integer "
         "division), the 1e-3 quadrature bound is applied once the FIR is filled (k >= M-1); the real part is compared by value from k = 0",
         "Tuner: f in [-fs/2, fs/2] (closed, real-valued bound) is admissible; tolerance 1e-9 relative to |x[k]|; "
